@@ -1,4 +1,5 @@
 """C09  Decoding agrees with an independent RFC encoder, including legal variants."""
+import ipaddress
 import json
 import random
 import struct
@@ -14,6 +15,9 @@ RULE = ('values of the C06/C07 spaces are encoded by the reference encoder (no y
         'mode, add-path identifiers (codec level) - and Update.parse must return exactly the encoded values with no sub_error; for '
         'corruptions (ORIGIN > 2, prefix length > 32, AS_PATH segment type outside 1..4, every wrong length 0..8 of the fixed-length '
         'attributes) sub_error must be set; a sample goes through dataReceived to handler.update_received / on_update_error; '
+        'BGP-LS attribute (type 29): every RFC 7752 section 3.3 node / link / prefix attribute TLV, the RFC 8571 TE metric, RFC 8814 MSD, '
+        'RFC 9085 / 9086 segment routing and RFC 9514 SRv6 TLVs, alone and 2..6 per attribute under IS-IS and OSPF protocol ids: no '
+        'sub_error, one entry per TLV, and the encoded value for the fields the RFCs name; '
         'distinct = distinct (value, variant set) encodings')
 ASSUMPTIONS = ['vlib/refenc.py is the trusted reference; it is calibrated at run time against the byte strings of the unit tests (per-attribute reproduction counts in the evidence)',
                'add-path is exercised at codec level only (the protocol passes afi_add_path={} today)']
@@ -180,8 +184,95 @@ def _f32(x):
     return struct.unpack('!f', struct.pack('!f', x))[0]
 
 
-def ls_tlv(rng, t):
+class Paths(list):
+    """[(path into the decoded value, encoded field value)]: fields whose names RFC 7752 / 8571 / 9085 / 9514 give"""
+
+
+def _u24(x):
+    return x.to_bytes(3, 'big')
+
+
+def ls_tlv_sr(rng, t, proto):
+    """segment routing (RFC 9085, 9086), SRv6 (RFC 9514), MSD (RFC 8814) and TE metric (RFC 8571) TLVs"""
+    isis = proto in (1, 2)
+    lab = rng.choice([16, 16000, 24001, 1048575])
+    idx = rng.choice([0, 1, 100, 4294967295])
+    w = rng.choice([0, 1, 10, 255])
+    alg = rng.choice([0, 1, 128, 255])
+    sid6 = gen.ipv6(rng, rng.choice(['doc', 'doc', 'rand', 'small']))
+    beh = rng.choice([1, 5, 48, 65535])
+    if t == 258:
+        a, b = rng.choice(gen.U32), rng.choice(gen.U32)
+        return struct.pack('!II', a, b), Paths([(['local_identifier'], a), (['remote_identifier'], b)])
+    if t in (266, 267, 1050):
+        n = 1 if t != 266 else rng.choice([1, 2, 3])
+        return bytes(x for _ in range(n) for x in (rng.choice([1, 2, 41]), rng.choice([0, 10, 255]))), None
+    if t in (1034, 1036):
+        ranges = b''.join(_u24(rng.choice([1, 8000, 16777215])) + (struct.pack('!HH', 1161, 3) + _u24(lab) if rng.random() < 0.6 else struct.pack('!HHI', 1161, 4, idx))
+                          for _ in range(rng.choice([1, 2])))
+        return bytes([rng.choice([0x80, 0x40, 0xc0, 0]), 0]) + ranges, None
+    if t == 1035:
+        vs = [rng.choice([0, 1, 128, 255]) for _ in range(rng.choice([1, 2, 4]))]
+        return bytes(vs), vs
+    if t == 1038:
+        o = rng.choice([0, 1])
+        return struct.pack('!HH', 0x4000 if o else 0, 0), Paths([(['flags', 'O'], o)])
+    if t in (1099, 1101, 1102, 1103):
+        if rng.random() < 0.5:
+            return bytes([0x30 if t == 1099 else 0xc0, w, 0, 0]) + _u24(lab), Paths([(['weight'], w), (['value'], lab)])
+        return bytes([0, w, 0, 0]) + struct.pack('!I', idx), Paths([(['weight'], w), (['value'], idx)])
+    if t == 1100:
+        nid = bytes(rng.getrandbits(8) for _ in range(6 if isis else 4))
+        return bytes([0x30, w, 0, 0]) + nid + _u24(lab), Paths([(['weight'], w), (['value'], lab)])
+    if t == 1106:
+        return struct.pack('!HBBBB', beh, rng.choice([0, 0x80, 0xe0]), alg, w, 0) + refenc.ip_bytes(sid6), Paths(
+            [(['endpoint_behavior'], beh), (['algorithm'], alg), (['weight'], w), (['sid'], sid6)])
+    if t in (1107, 1108):
+        nid = bytes(rng.getrandbits(8) for _ in range(6 if t == 1107 else 4))
+        return struct.pack('!HBBBB', beh, rng.choice([0, 0x80, 0xe0]), alg, w, 0) + nid + refenc.ip_bytes(sid6), Paths(
+            [(['endpoint_behavior'], beh), (['algorithm'], alg), (['weight'], w), (['sid'], sid6)])
+    if t in (1114, 1116, 1117):
+        return bytes([rng.choice([0, 0x80]) if t != 1116 else 0]) + _u24(rng.choice([0, 1, 1000, 16777215])), None
+    if t == 1115:
+        return bytes([rng.choice([0, 0x80])]) + _u24(10) + b'\x00' + _u24(rng.choice([10, 16777215])), None
+    if t in (1118, 1119, 1120):
+        return struct.pack('!f', rng.choice([0.0, 1e6, 1.25e9])), None
+    if t == 1158:
+        if rng.random() < 0.5:
+            return bytes([0x0c if isis else 0x0c, alg, 0, 0]) + _u24(lab), Paths([(['algorithm'], alg), (['sid'], lab)])
+        return bytes([rng.choice([0, 0x40]), alg, 0, 0]) + struct.pack('!I', idx), Paths([(['algorithm'], alg), (['sid'], idx)])
+    if t == 1161:
+        if rng.random() < 0.5:
+            return _u24(lab), Paths([(['value'], lab)])
+        return struct.pack('!I', idx), Paths([(['value'], idx)])
+    if t == 1162:
+        m = rng.choice(gen.U32)
+        return bytes([rng.choice([0, 0x80]), alg, 0, 0]) + struct.pack('!I', m), Paths([(['algorithm'], alg), (['metric'], m)])
+    if t == 1170:
+        return bytes([rng.choice([0, 0x80, 0x40, 0x20, 0xe0])]), None
+    if t == 1171:
+        a = gen.ipv4(rng) if rng.random() < 0.5 else gen.ipv6(rng, rng.choice(['doc', 'll', 'small']))
+        return refenc.ip_bytes(a), a
+    if t == 1173:
+        return b''.join(struct.pack('!I', rng.choice(gen.U32)) for _ in range(rng.choice([1, 2, 8]))), None
+    if t == 1250:
+        return struct.pack('!HBB', beh, 0, alg), Paths([(['endpoint_behavior'], beh), (['algorithm'], alg)])
+    if t == 1251:
+        return bytes([rng.choice([0, 0x80, 0xe0]), w, 0, 0]) + struct.pack('!II', rng.choice([65001, 4200000000]), rng.choice(gen.U32)), Paths([(['weight'], w)])
+    if t == 1252:
+        ls_ = [rng.choice([0, 16, 32, 40, 48]) for _ in range(4)]
+        return bytes(ls_), Paths([([k], v) for k, v in zip(('locator_block_length', 'locator_node_length', 'function_length', 'argument_length'), ls_)])
+    raise KeyError(t)
+
+
+LS_SR_TYPES = [258, 266, 267, 1034, 1035, 1036, 1038, 1050, 1099, 1100, 1101, 1102, 1103, 1106, 1107, 1108, 1114, 1115, 1116, 1117, 1118,
+               1119, 1120, 1158, 1161, 1162, 1170, 1171, 1173, 1250, 1251, 1252]
+
+
+def ls_tlv(rng, t, proto=2):
     """(body, encoded value or None) of one well-formed attribute TLV of type t"""
+    if t in LS_SR_TYPES:
+        return ls_tlv_sr(rng, t, proto)
     if t in (1028, 1030):
         a = gen.ipv4(rng)
         return refenc.ip_bytes(a), a
@@ -238,13 +329,13 @@ LS_TYPES = [1024, 1025, 1026, 1027, 1028, 1029, 1030, 1031, 1088, 1089, 1090, 10
             1152, 1153, 1154, 1155, 1156, 1157]
 
 
-def ls_update(rng, tlvs):
+def ls_update(rng, tlvs, proto=None):
     """An UPDATE announcing one BGP-LS node NLRI (RFC 7752 3.2) with the given attribute TLVs in attribute 29"""
     def tlv(t, b):
         return struct.pack('!HH', t, len(b)) + b
     node = tlv(256, tlv(512, struct.pack('!I', rng.choice([65001, 4200000000]))) + tlv(513, struct.pack('!I', rng.choice([0, 1]))) +
                tlv(515, bytes(rng.getrandbits(8) for _ in range(6))))
-    proto = rng.choice([2, 2, 1, 3])
+    proto = proto or rng.choice([2, 2, 1, 3])
     nlri = struct.pack('!HH', 1, len(node) + 9) + bytes([proto]) + struct.pack('!Q', rng.choice([0, 1])) + node
     mp = struct.pack('!HBB', 16388, 71, 4) + refenc.ip_bytes('10.0.0.1') + b'\x00' + nlri
     ls = b''.join(tlv(t, b) for t, b in tlvs)
@@ -254,9 +345,93 @@ def ls_update(rng, tlvs):
     return struct.pack('!H', 0) + struct.pack('!H', len(at)) + at
 
 
-def _ls_alone_fails(Update, rng, t, b):
+class Addr(str):
+    """an address or prefix compared as a value (family and bits), whatever text form the decoder prints"""
+
+
+def _same_addr(got, want):
     try:
-        r = Update.parse(None, ls_update(rng, [(t, b)]), True)
+        if '/' in want:
+            return ipaddress.ip_network(got, strict=False) == ipaddress.ip_network(want, strict=False)
+        return ipaddress.ip_address(got) == ipaddress.ip_address(want)
+    except (ValueError, TypeError):
+        return False
+
+
+def ls_nlri(rng):
+    """One BGP-LS NLRI (RFC 7752 3.2, RFC 9514 6) from the reference encoder: (octets, protocol id, [(descriptor code, encoded value)])"""
+    def tlv(t, b):
+        return struct.pack('!HH', t, len(b)) + b
+    proto = rng.choice([1, 2, 2, 3, 3, 6])
+    isis = proto in (1, 2)
+
+    def node(code):
+        asn, lsid = rng.choice([65001, 4200000000, 1]), rng.choice([0, 1, 0x0a000001])
+        b = tlv(512, struct.pack('!I', asn)) + tlv(513, struct.pack('!I', lsid))
+        if not isis:
+            b += tlv(514, struct.pack('!I', rng.choice([0, 1, 0x0a000000])))
+        rid = bytes(rng.getrandbits(8) for _ in range(rng.choice([6, 7]) if isis else rng.choice([4, 8])))
+        return tlv(code, b + tlv(515, rid)), Paths([(['as_num'], asn), (['bgpls_id'], Addr(str(ipaddress.IPv4Address(lsid))))])
+    kind = rng.choice(['node', 'link', 'link', 'prefix4', 'prefix6', 'prefix6', 'srv6sid'])
+    descs = []
+    b, want = node(256)
+    body = b
+    descs.append((256, want))
+    if kind == 'link':
+        b, want = node(257)
+        body += b
+        descs.append((257, want))
+        form = rng.choice(['v4', 'v6', 'ids', 'v6'])
+        if form == 'ids':
+            a_, b_ = rng.choice(gen.U32), rng.choice(gen.U32)
+            body += tlv(258, struct.pack('!II', a_, b_))
+            descs.append((258, Paths([(['local_identifier'], a_), (['remote_identifier'], b_)])))
+        elif form == 'v4':
+            for code in (259, 260):
+                a_ = gen.ipv4(rng)
+                body += tlv(code, refenc.ip_bytes(a_))
+                descs.append((code, Addr(a_)))
+        else:
+            for code in (261, 262):
+                a_ = gen.ipv6(rng, rng.choice(['doc', 'll', 'small', 'rand']))
+                body += tlv(code, refenc.ip_bytes(a_))
+                descs.append((code, Addr(a_)))
+        if rng.random() < 0.3:
+            mts = [rng.choice([0, 2, 4095]) for _ in range(rng.choice([1, 2]))]
+            body += tlv(263, b''.join(struct.pack('!H', m) for m in mts))
+            descs.append((263, mts))
+        ntype = 2
+    elif kind in ('prefix4', 'prefix6'):
+        if rng.random() < 0.3:
+            mts = [rng.choice([0, 2, 4095])]
+            body += tlv(263, struct.pack('!H', mts[0]))
+            descs.append((263, mts))
+        if not isis:
+            rt = rng.choice([1, 2, 3, 4, 5, 6])
+            body += tlv(264, bytes([rt]))
+            descs.append((264, rt))
+        if kind == 'prefix4':
+            p_ = gen.prefix4(rng, rng.choice([None, 0, 1, 8, 24, 31, 32]))
+            body += tlv(265, refenc.prefix4_bytes(p_))
+        else:
+            p_ = gen.prefix6(rng, rng.choice([None, 0, 0, 1, 8, 32, 64, 127, 128]), rng.choice(['zero', 'rand', 'rand', 'ones']))
+            body += tlv(265, refenc.prefix6_bytes(p_))
+        descs.append((265, Addr(p_)))
+        ntype = 3 if kind == 'prefix4' else 4
+    elif kind == 'srv6sid':
+        a_ = gen.ipv6(rng, rng.choice(['doc', 'rand', 'small']))
+        body += tlv(518, refenc.ip_bytes(a_))
+        descs.append((518, Addr(a_)))
+        ntype = 6
+    else:
+        ntype = 1
+    ident = rng.choice([0, 1, (1 << 64) - 1])
+    return struct.pack('!HH', ntype, len(body) + 9) + bytes([proto]) + struct.pack('!Q', ident) + body, proto, ident, descs
+
+
+def _ls_alone_fails(Update, rng, t, b, proto):
+    try:
+        r = Update.parse(None, ls_update(rng, [(t, b)], proto), True)
         return bool(r['sub_error']) or not (r['attr'] or {}).get(29)
     except Exception:
         return True
@@ -388,10 +563,14 @@ def run_shard(sh):
     # ------------------------------------------------------------ BGP-LS attribute TLVs (RFC 7752 3.3): every standard node / link /
     # prefix attribute TLV alone, and 2..6 of them in one attribute
     nls = 0
-    ls_cases = [[t] for t in LS_TYPES for _ in range(6)] + [[rng.choice(LS_TYPES) for _ in range(rng.randint(2, 6))] for _ in range(sh['n'] // 200)]
+    ls_all = LS_TYPES + LS_SR_TYPES
+    ls_cases = [[t] for t in ls_all for _ in range(6)] + [[rng.choice(ls_all) for _ in range(rng.randint(2, 6))] for _ in range(sh['n'] // 200)]
     for types in ls_cases if sh['part'] % 2 == 0 else []:
-        made = [(t,) + ls_tlv(rng, t) for t in types]
-        body = ls_update(rng, [(t, b) for t, b, _ in made])
+        proto = rng.choice([2, 2, 1, 3])
+        # the LAN End.X SID TLV has an IS-IS (1107) and an OSPFv3 (1108) form
+        types = [(1107 if proto in (1, 2) else 1108) if t in (1107, 1108) else t for t in types]
+        made = [(t,) + ls_tlv(rng, t, proto) for t in types]
+        body = ls_update(rng, [(t, b) for t, b, _ in made], proto)
         nls += 1
         res['evaluations'] += 1
         rep = dict(body=body.hex(), asn4=True)
@@ -403,7 +582,7 @@ def run_shard(sh):
             continue
         got = (r['attr'] or {}).get(29)
         if r['sub_error'] or not isinstance(got, list) or len(got) != len(made):
-            broken = [t for t, b, _ in made if _ls_alone_fails(Update, rng, t, b)]
+            broken = [t for t, b, _ in made if _ls_alone_fails(Update, rng, t, b, proto)]
             bad('reference-decode-error', ['variant:bgp-ls-attribute'] + ['tlv:%d' % t for t in sorted(set(broken))[:2]],
                 'sub_error %r, attribute 29 = %s on a well-formed BGP-LS attribute with TLVs %s' % (
                     r['sub_error'], json.dumps(gen.norm(got))[:200], [(t, b.hex()[:24]) for t, b, _ in made]), rep)
@@ -412,10 +591,66 @@ def run_shard(sh):
             if want is None:
                 continue
             gv = ent.get('value') if isinstance(ent, dict) else None
+            if isinstance(want, Paths):
+                # named fields: judged where the decoder prints a field of that name
+                for path, wv in want:
+                    cur = gv
+                    for k in path:
+                        cur = cur.get(k, KeyError) if isinstance(cur, dict) else KeyError
+                    if cur is not KeyError and gen.norm(cur) != gen.norm(wv):
+                        bad('reference-decode-differs', ['variant:bgp-ls-attribute', 'tlv:%d' % t, 'field:' + '.'.join(path)],
+                            'BGP-LS attribute TLV %d with body %s encodes %s = %s, decoded as %s' % (t, b.hex()[:60], '.'.join(path), wv, json.dumps(gen.norm(ent))[:200]), rep)
+                continue
             if gen.norm(gv) != gen.norm(want):
                 bad('reference-decode-differs', ['variant:bgp-ls-attribute', 'tlv:%d' % t], 'BGP-LS attribute TLV %d with body %s encodes %s, decoded as %s' % (
                     t, b.hex()[:60], json.dumps(gen.norm(want))[:120], json.dumps(gen.norm(ent))[:160]), rep)
     vcount['bgp_ls_attribute'] = nls
+    # ------------------------------------------------------------ BGP-LS NLRIs (node, link, IPv4 / IPv6 prefix, SRv6 SID) with their descriptors
+    nln = 0
+    for _ in range(sh['n'] // 40 if sh['part'] % 2 == 1 else 0):
+        made = [ls_nlri(rng) for _ in range(rng.choice([1, 1, 2, 4]))]
+        wd = rng.random() < 0.25
+        if wd:
+            val = struct.pack('!HB', 16388, 71) + b''.join(m[0] for m in made)
+        else:
+            val = struct.pack('!HBB', 16388, 71, 4) + refenc.ip_bytes('10.0.0.1') + b'\x00' + b''.join(m[0] for m in made)
+        at = (b'' if wd else refenc.attr(1, b'\x00') + refenc.attr(2, b'') + refenc.attr(5, struct.pack('!I', 100))) + refenc.attr(15 if wd else 14, val)
+        body = struct.pack('!H', 0) + struct.pack('!H', len(at)) + at
+        nln += 1
+        res['evaluations'] += 1
+        rep = dict(body=body.hex(), asn4=True)
+        feats = ['variant:bgp-ls-nlri', 'attr:%d' % (15 if wd else 14)]
+        try:
+            r = Update.parse(None, body, True)
+        except Exception as e:
+            bad('reference-decode-raised', feats, 'Update.parse raised %r on BGP-LS NLRIs' % (e,), rep)
+            continue
+        got = ((r['attr'] or {}).get(15 if wd else 14) or {})
+        got = got.get('withdraw' if wd else 'nlri') if isinstance(got, dict) else None
+        if r['sub_error'] or not isinstance(got, list) or len(got) != len(made):
+            bad('reference-decode-error', feats, 'sub_error %r, decoded %s for %d well-formed BGP-LS NLRI(s)' % (r['sub_error'], json.dumps(gen.norm(got))[:300], len(made)), rep)
+            continue
+        for (_, proto, ident, descs), ent in zip(made, got):
+            dl = ent.get('descriptors') if isinstance(ent, dict) else None
+            if ent.get('protocol_id', proto) != proto or not isinstance(dl, list) or len(dl) != len(descs):
+                bad('reference-decode-differs', feats + ['descriptor-count'], 'NLRI with protocol %d and descriptors %s decoded as %s' % (
+                    proto, [c for c, _ in descs], json.dumps(gen.norm(ent))[:300]), rep)
+                continue
+            for (code, want), d in zip(descs, dl):
+                gv = d.get('value') if isinstance(d, dict) else None
+                if isinstance(want, Paths):
+                    pairs = [(gv.get(pth[0], KeyError) if isinstance(gv, dict) else KeyError, wv) for pth, wv in want]
+                else:
+                    pairs = [(gv, want)]
+                for g_, w_ in pairs:
+                    if g_ is KeyError:
+                        continue
+                    same = _same_addr(g_, w_) if isinstance(w_, Addr) else gen.norm(g_) == gen.norm(w_)
+                    if not same:
+                        bad('reference-decode-differs', feats + ['descriptor:%d' % code] + (['ipv6-below-2^32'] if isinstance(w_, Addr) and ':' in w_ and
+                                                                                             int(ipaddress.ip_network(w_, strict=False).network_address if '/' in w_ else ipaddress.ip_address(w_)) < (1 << 32) else []),
+                            'descriptor %d encodes %s, decoded as %s' % (code, w_, json.dumps(gen.norm(d))[:200]), rep)
+    vcount['bgp_ls_nlri'] = nln
     # ------------------------------------------------------------ End-of-RIB markers (RFC 4724): MP_UNREACH_NLRI with a family and no route
     neor = 0
     for afs in ([2, 1], [1, 4], [2, 4], [1, 128], [2, 128], [25, 70], [1, 133], [1, 1]) if sh['part'] < 4 else []:
@@ -524,7 +759,7 @@ def floors(m, tier):
     c = m['counters']
     unmet = []
     for k, n in (('reference_encodings_decoded', 10000), ('corruptions_checked', 5000), ('through_protocol_good', 50), ('calibration_vectors_reproduced', 20),
-                 ('variant_ext', 1000), ('variant_dirty', 1000), ('variant_as4', 1000), ('variant_addpath', 500)):
+                 ('variant_ext', 1000), ('variant_dirty', 1000), ('variant_as4', 1000), ('variant_addpath', 500), ('variant_bgp_ls_attribute', 1000), ('variant_bgp_ls_nlri', 1000)):
         if c.get(k, 0) < n:
             unmet.append('%s below %d' % (k, n))
     return unmet
